@@ -55,3 +55,130 @@ Example C16_type_text_max_depth :
   ty_parse_res (deep_text 31) = Panic site_from_type /\ ty_parse (deep_text 31) = None.
 Proof. vm_compute. split; [eexists; repeat split | split; reflexivity]. Qed.
 Print Assumptions C16_type_text_max_depth.
+
+(* =====================================================================================
+   C16 (values, untagged JSON, serde attributes) — model: SerdeModel.v, lemmas: SerdeProofs.v.
+
+   Trustfall code decided here: the `TransparentValue` conversions, the variant order that drives
+   serde's untagged resolution, `Type`'s text-based Serialize/Deserialize, and every
+   `#[serde(default …, skip_serializing_if = …)]` attribute.  serde-derive, serde_json (Value
+   representation, text printing/parsing) and ron are third-party: modelled where stated, never
+   verified, only exercised by the harness (`tfh_c16 c16`) => the property is claimed PARTIAL.
+   ===================================================================================== *)
+From TF Require Import ValuesProofs IR SerdeModel SerdeProofs.
+
+(* ---- 1. FieldValue <-> TransparentValue ---- *)
+Theorem C16_transparent_roundtrip : forall v, from_transparent (to_transparent v) = v.
+Proof. exact transparent_roundtrip. Qed.
+Print Assumptions C16_transparent_roundtrip.
+
+Theorem C16_transparent_roundtrip_conv : forall t, to_transparent (from_transparent t) = t.
+Proof. exact transparent_roundtrip_conv. Qed.
+Print Assumptions C16_transparent_roundtrip_conv.
+
+(* ---- 2. untagged JSON ----
+   Full statement of the property (REFUTED, defect F13):
+     forall v, wf v = true -> exists v', of_json (to_json v) = Some v' /\ eqT v' v = true.
+   Counterexample: Enum "foo" |-> JSON string "foo" |-> String "foo", which PartialEq (C08)
+   distinguishes from the Enum.  Known-defect class K-enum-json = `contains_enum v = true`. *)
+Theorem C16_untagged_json_enum_refuted :
+  exists v, wf v = true /\
+    exists v', of_json (to_json v) = Some v' /\ eqT v' v = false /\ fv_eq v' v = Ok false.
+Proof. exact untagged_json_enum_refuted. Qed.
+Print Assumptions C16_untagged_json_enum_refuted.
+
+(* on the complement of the class, for ALL values (any nesting, all integers, all finite floats) *)
+Theorem C16_untagged_json_roundtrip : forall v, wf v = true -> enum_free v = true ->
+  exists v', of_json (to_json v) = Some v' /\ eqT v' v = true.
+Proof. exact untagged_json_roundtrip. Qed.
+Print Assumptions C16_untagged_json_roundtrip.
+
+(* the same with the transcribed `PartialEq::eq` itself (which asserts finiteness): no panic, true *)
+Theorem C16_untagged_json_roundtrip_eq : forall v, wf v = true -> enum_free v = true ->
+  exists v', of_json (to_json v) = Some v' /\ wf v' = true /\ fv_eq v' v = Ok true.
+Proof. exact untagged_json_roundtrip_eq. Qed.
+Print Assumptions C16_untagged_json_roundtrip_eq.
+
+(* the exact image: Uint64 <= i64::MAX comes back as Int64, Enum as String, everything else
+   (also Uint64 > i64::MAX, every finite float incl. integral ones and -0.0) unchanged *)
+Theorem C16_untagged_json_image : forall v, wf v = true -> of_json (to_json v) = Some (canon v).
+Proof. exact json_roundtrip_image. Qed.
+Print Assumptions C16_untagged_json_image.
+
+(* the class is exact: the trip returns an equal value iff the value contains no Enum *)
+Theorem C16_untagged_json_roundtrip_iff : forall v, wf v = true ->
+  ((exists v', of_json (to_json v) = Some v' /\ eqT v' v = true) <-> contains_enum v = false).
+Proof. exact untagged_json_roundtrip_iff. Qed.
+Print Assumptions C16_untagged_json_roundtrip_iff.
+
+(* after one trip the value is a fixed point (and well formed, and Enum-free) *)
+Theorem C16_untagged_json_second_trip : forall v, wf v = true ->
+  of_json (to_json (canon v)) = Some (canon v) /\ wf (canon v) = true /\ enum_free (canon v) = true.
+Proof. intros v W. split; [now apply untagged_json_second_trip | split; [now apply wf_canon | apply canon_enum_free]]. Qed.
+Print Assumptions C16_untagged_json_second_trip.
+
+(* the other direction: every JSON document without objects (numbers as serde_json holds them) is
+   accepted, and the value it is read to writes back the same document; objects are refused *)
+Theorem C16_json_value_json : forall j, wf_json j = true -> exists v, of_json j = Some v /\ to_json v = j.
+Proof. exact json_value_json. Qed.
+Print Assumptions C16_json_value_json.
+
+Example C16_untagged_json_nonvacuous :
+  (* Uint64 5 |-> 5 |-> Int64 5, equal *)
+  to_json (U64 5) = JNum (PosInt 5) /\ of_json (JNum (PosInt 5)) = Some (I64 5) /\ eqT (I64 5) (U64 5) = true /\
+  (* Uint64 2^63 stays Uint64, Int64 -1 is a NegInt *)
+  of_json (to_json (U64 (2^63))) = Some (U64 (2^63)) /\ to_json (I64 (-1)) = JNum (NegInt (-1)) /\
+  (* Float64 1.0 (bits 0x3FF0…) stays a float: the JSON number keeps its kind; -0.0 too *)
+  of_json (to_json (F64 4607182418800017408)) = Some (F64 4607182418800017408) /\
+  of_json (to_json (F64 9223372036854775808)) = Some (F64 9223372036854775808) /\
+  (* nested *)
+  of_json (to_json (List [U64 1; Null; List [Str "a"; F64 4609434218613702656]; Boolv true]))
+    = Some (List [I64 1; Null; List [Str "a"; F64 4609434218613702656]; Boolv true]) /\
+  wf (List [U64 1; Null; List [Str "a"; F64 4609434218613702656]; Boolv true]) = true /\
+  enum_free (List [U64 1; Null; List [Str "a"; F64 4609434218613702656]; Boolv true]) = true /\
+  (* F13 inside a list *)
+  of_json (to_json (List [I64 1; Enum "a"])) = Some (List [I64 1; Str "a"]) /\
+  eqT (List [I64 1; Str "a"]) (List [I64 1; Enum "a"]) = false /\
+  (* outside wf: a NaN (bits 0x7FF8…) is written as null *)
+  to_json (F64 9221120237041090560) = JNull /\ of_json JNull = Some Null /\
+  (* objects match no variant; one bad element refuses the whole list *)
+  of_json (JObj [("a", JNull)]) = None /\ of_json (JArr [JNull; JObj []]) = None.
+Proof. vm_compute. repeat split. Qed.
+Print Assumptions C16_untagged_json_nonvacuous.
+
+(* ---- 3. Type through serde: serialize_str(Display) / visit_str -> Type::parse ---- *)
+Theorem C16_type_serde_roundtrip : forall t, wf_ty t = true -> name_ok (tbase t) = true ->
+  ty_of_json (ty_to_json t) = Ok (Some t).
+Proof. exact type_serde_roundtrip. Qed.
+Print Assumptions C16_type_serde_roundtrip.
+
+(* ---- 4. skip_serializing_if / default attributes ---- *)
+(* a field with `skip_serializing_if = skip` and `default = dflt` survives serialise-then-
+   deserialise for ALL values iff the predicate skips nothing but the default *)
+Theorem C16_skip_default_field_roundtrip : forall (A : Type) (skip : A -> bool) (dflt : A),
+  (forall v, field_de dflt (field_ser skip v) = v) <-> (forall v, skip v = true -> v = dflt).
+Proof. exact skip_default_field_roundtrip. Qed.
+Print Assumptions C16_skip_default_field_roundtrip.
+
+(* all 23 attribute instances (16 in ir/mod.rs, 6 on SerializableContext, 1 on Trace) *)
+Theorem C16_all_attrs_consistent : Forall attr_consistent attr_table.
+Proof. exact all_attrs_consistent. Qed.
+Print Assumptions C16_all_attrs_consistent.
+
+Theorem C16_all_attrs_roundtrip : Forall attr_roundtrips attr_table.
+Proof. exact all_attrs_roundtrip. Qed.
+Print Assumptions C16_all_attrs_roundtrip.
+
+(* non-vacuity: the table has 23 entries, each with a value that is kept and one that is skipped;
+   a wrong default function (`default_optional` = true) violates the obligation *)
+Example C16_attrs_nonvacuous :
+  List.length attr_table = 23%nat /\
+  Forall (fun a => a_skip a (a_sample a) = false /\ a_skip a (a_default a) = true) attr_table /\
+  ~ attr_consistent (mkAttr "IREdge" "optional" "is_false" "default_optional" bool is_false true true shape_bool) /\
+  attr_case_named "IREdge" "optional" false = "omitted=T|back=F" /\
+  attr_case_named "IREdge" "optional" true = "omitted=F|back=T".
+Proof.
+  split; [reflexivity|]. split; [exact attr_samples_ok|]. split; [exact attr_wrong_default_refuted|].
+  split; reflexivity.
+Qed.
+Print Assumptions C16_attrs_nonvacuous.
